@@ -311,44 +311,69 @@ namespace
         --g_live_outside;
     }
 
-    template <std::size_t S, std::size_t A>
-    struct alignas(A) elem
+    // the k-th construction (default / value / copy / move, counted from arming) of a throwing element type throws
+    struct boom
+    {
+    };
+    long g_throw_at = 0, g_ctor_seq = 0;
+    bool g_boom_fired = false;
+    template <bool Thr>
+    inline void maybe_throw()
+    {
+        if (Thr && ++g_ctor_seq == g_throw_at)
+        {
+            g_boom_fired = true;
+            throw boom();
+        }
+    }
+
+    template <std::size_t S, std::size_t A, bool Thr>
+    struct alignas(A) elem_t
     {
         static constexpr std::size_t size_v = S, align_v = A;
+        static constexpr bool        throwing_v = Thr;
         unsigned char                b[S];
 
-        elem() noexcept
+        elem_t() noexcept(!Thr)
         {
+            maybe_throw<Thr>(); // throws before the element exists
             for (std::size_t k = 0; k != S; ++k)
                 b[k] = pat(DEFCODE, k);
             elem_reg(this, S, A);
         }
-        explicit elem(u8 code) noexcept
+        explicit elem_t(u8 code) noexcept(!Thr)
         {
+            maybe_throw<Thr>();
             for (std::size_t k = 0; k != S; ++k)
                 b[k] = pat(code, k);
             elem_reg(this, S, A);
         }
-        elem(const elem& o) noexcept
+        elem_t(const elem_t& o) noexcept(!Thr)
         {
+            maybe_throw<Thr>();
             std::memcpy(b, o.b, S);
             elem_reg(this, S, A);
         }
-        elem(elem&& o) noexcept
+        elem_t(elem_t&& o) noexcept(!Thr)
         {
+            maybe_throw<Thr>();
             std::memcpy(b, o.b, S);
             elem_reg(this, S, A);
         }
-        elem& operator=(const elem& o) noexcept
+        elem_t& operator=(const elem_t& o) noexcept
         {
             std::memcpy(b, o.b, S);
             return *this;
         }
-        ~elem() noexcept
+        ~elem_t() noexcept
         {
             elem_unreg(this, S);
         }
     };
+    template <std::size_t S, std::size_t A>
+    using elem = elem_t<S, A, false>;
+    template <std::size_t S, std::size_t A>
+    using telem = elem_t<S, A, true>;
     static_assert(sizeof(elem<1, 1>) == 1 && sizeof(elem<16, 2>) == 16 && alignof(elem<16, 16>) == 16 && sizeof(elem<8, 4>) == 8, "");
 
     //=== joint types generated from member layouts ===//
@@ -463,6 +488,23 @@ namespace
         }
     };
 
+    // layout 3: joint_array (initializer_list constructor, always 2 elements) + joint_array (size constructor)
+    template <class E1, class E2>
+    struct JT3 : fm::joint_type<JT3<E1, E2>>
+    {
+        using base = fm::joint_type<JT3<E1, E2>>;
+        fm::joint_array<E1> a;
+        fm::joint_array<E2> b;
+        JT3(fm::joint j, const spec& s) : base(j), a({E1(s.c1[0]), E1(s.c1[1])}, *this), b(s.n2, *this) {}
+        JT3(fm::joint j, const JT3& o) : base(j), a(o.a, *this), b(o.b, *this) {}
+        JT3(fm::joint j, JT3&& o) : base(j), a(std::move(o.a), *this), b(std::move(o.b), *this) {}
+        void look(view& v) const
+        {
+            v.d1 = reinterpret_cast<const u8*>(a.data()), v.n1 = v.cap1 = a.size();
+            v.d2 = reinterpret_cast<const u8*>(b.data()), v.n2 = v.cap2 = b.size();
+        }
+    };
+
     //=== type erased per-type operations (thin wrappers around the library calls) ===//
     struct type_ops
     {
@@ -479,6 +521,7 @@ namespace
         void (*swap)(void*, void*);
         void (*destroy)(void*);
         void (*look)(void*, view&);
+        bool throwing; // element constructors can be made to throw
     };
 
     constexpr std::size_t SLOT_BYTES = 32;
@@ -563,6 +606,12 @@ namespace
         using type = JT2<E1, E2>;
     };
 
+    template <class E1, class E2>
+    struct pick<3, E1, E2>
+    {
+        using type = JT3<E1, E2>;
+    };
+
     template <std::size_t I>
     struct elem_at;
 #define VERIF_E(i, s, a)                                                                                               \
@@ -587,6 +636,16 @@ namespace
     VERIF_E(12, 8, 8)
     VERIF_E(13, 16, 8)
     VERIF_E(14, 16, 16)
+    template <int L, class E1, class E2>
+    constexpr type_ops make_ops_for()
+    {
+        using T = typename pick<L, E1, E2>::type;
+        using I = impl<T>;
+        return type_ops{L,          E1::size_v, E1::align_v, E2::size_v, E2::align_v, sizeof(T), alignof(T),
+                        &I::init,   &I::create, &I::moveobj, &I::clone,  &I::pmove,   &I::assign, &I::reset,
+                        &I::null,   &I::swap_,  &I::destroy, &I::look,   E1::throwing_v || E2::throwing_v};
+    }
+#ifndef VERIF_JOINT_EXT
     constexpr std::size_t NELEM = 15, NLAYOUT = 3, NTYPES_ALL = NLAYOUT * NELEM * NELEM;
     // this translation unit instantiates the joint types with global index K == PART (mod PARTS)
     constexpr std::size_t PARTS = VERIF_JOINT_PARTS, PART = VERIF_JOINT_PART;
@@ -599,11 +658,7 @@ namespace
         static_assert(K < NTYPES_ALL, "");
         using E1 = typename elem_at<(K % (NELEM * NELEM)) / NELEM>::type;
         using E2 = typename elem_at<K % NELEM>::type;
-        using T  = typename pick<int(K / (NELEM * NELEM)), E1, E2>::type;
-        using I  = impl<T>;
-        return type_ops{int(K / (NELEM * NELEM)), E1::size_v, E1::align_v, E2::size_v, E2::align_v, sizeof(T), alignof(T),
-                        &I::init,   &I::create, &I::moveobj, &I::clone, &I::pmove, &I::assign, &I::reset,
-                        &I::null,   &I::swap_,  &I::destroy, &I::look};
+        return make_ops_for<int(K / (NELEM * NELEM)), E1, E2>();
     }
     template <std::size_t... J>
     const type_ops* make_table(std::index_sequence<J...>)
@@ -612,11 +667,24 @@ namespace
         return t;
     }
     const type_ops* g_types = make_table(std::make_index_sequence<NTYPES>{});
+#else
+    // extension TU (h_joint_x): joint types whose element constructors can throw, all four layouts
+    const type_ops  g_types_x[] = {
+        make_ops_for<0, telem<1, 1>, telem<8, 8>>(),   make_ops_for<1, telem<1, 1>, telem<8, 8>>(),
+        make_ops_for<2, telem<1, 1>, telem<8, 8>>(),   make_ops_for<3, telem<1, 1>, telem<8, 8>>(),
+        make_ops_for<0, telem<4, 4>, telem<2, 2>>(),   make_ops_for<1, telem<4, 4>, telem<2, 2>>(),
+        make_ops_for<2, telem<4, 4>, telem<2, 2>>(),   make_ops_for<3, telem<4, 4>, telem<2, 2>>(),
+        make_ops_for<0, telem<16, 16>, telem<4, 2>>(), make_ops_for<1, telem<16, 16>, telem<4, 2>>(),
+        make_ops_for<2, telem<16, 16>, telem<4, 2>>(), make_ops_for<3, telem<16, 16>, telem<4, 2>>(),
+    };
+    constexpr std::size_t NTYPES  = sizeof(g_types_x) / sizeof(g_types_x[0]);
+    const type_ops*       g_types = g_types_x;
+#endif
 
     std::string type_name(std::size_t k)
     {
         const type_ops& t = g_types[k];
-        return fmt("L%d/s%zua%zu/s%zua%zu", t.layout, t.s1, t.a1, t.s2, t.a2);
+        return fmt("%sL%d/s%zua%zu/s%zua%zu", t.throwing ? "T" : "", t.layout, t.s1, t.a1, t.s2, t.a2);
     }
 
     //=== reference model ===//
@@ -634,8 +702,8 @@ namespace
         bool m2_array = t.layout != 1;
         // joint_array: the size constructors and the copy/move constructors always ask the stack (also for 0 elements),
         // the range constructor asks only when the range is not empty; a vector asks only for a non-empty buffer
-        bool m1_always = m1_array && (!creation || t.layout == 0);
-        bool m2_always = m2_array && (!creation || t.layout == 2);
+        bool m1_always = m1_array && (!creation || t.layout == 0 || t.layout == 3);
+        bool m2_always = m2_array && (!creation || t.layout == 2 || t.layout == 3);
         if (m1_always || n1 > 0)
             r[n++] = req{n1 * t.s1, t.a1};
         if (m2_always || n2 > 0)
@@ -733,13 +801,15 @@ namespace
         unsigned    n1, n2;
         std::size_t add;
         int         cls; // class index used for the distinct-case counter
+        int         throw_op = -1; // index of the operation during which the throw_at-th element construction throws
+        long        throw_at = 0;
     };
 
     struct run_stats
     {
         u64 ops = 0, allocating_ops = 0, threw = 0, clones_ok = 0, clones_refused = 0, moveobj_ok = 0, moveobj_refused = 0,
             creates_ok = 0, creates_refused = 0, cross_upstream_assign = 0, releases = 0, skipped = 0,
-            refused_with_padding = 0, clones_refused_same_residue = 0;
+            refused_with_padding = 0, clones_refused_same_residue = 0, ctor_throws = 0;
     };
     run_stats g_stats;
 
@@ -789,6 +859,8 @@ namespace
             g_sizeofT                        = t->sizeofT;
             nobj                             = 0;
             serial                           = 0;
+            boom_fired_in_armed_op = false;
+            g_throw_at             = 0;
             mslot[0] = mslot[1] = -1;
             exp_alloc[0] = exp_alloc[1] = exp_dealloc[0] = exp_dealloc[1] = 0;
             t->init(slot[0], g_up[0]);
@@ -810,8 +882,8 @@ namespace
         u8 expected_code(const mobj& o, int member, unsigned i) const
         {
             if (member == 1)
-                return t->layout == 1 ? o.c1[i] : DEFCODE;       // L0.a, L2.v default constructed
-            return t->layout == 2 ? o.c2[0] : o.c2[i];           // L2.b copies of one value
+                return t->layout == 1 || t->layout == 3 ? o.c1[i] : DEFCODE; // L0.a, L2.v default constructed
+            return t->layout == 2 ? o.c2[0] : t->layout == 3 ? DEFCODE : o.c2[i]; // L2.b copies of one value
         }
 
         void fill_codes(mobj& o)
@@ -1014,6 +1086,9 @@ namespace
             int  nblk0 = u.nblk;
             long live0 = g_live_in_arena;
             int  threw = 0;
+            g_boom_fired = false;
+            g_ctor_seq   = 0;
+            g_throw_at   = c.throw_op == step ? c.throw_at : 0;
             try
             {
                 if (kind == K_CREATE || kind == K_CREATE_OVER)
@@ -1027,10 +1102,16 @@ namespace
             {
                 threw = 1;
             }
+            catch (const boom&)
+            {
+                threw = 3;
+            }
             catch (...)
             {
                 threw = 2;
             }
+            g_throw_at = 0;
+            boom_fired_in_armed_op = g_boom_fired;
             ++g_stats.allocating_ops;
             if (g_fail.set)
                 return;
@@ -1055,12 +1136,17 @@ namespace
             note_class(c, op, pre_state_before, outcome);
             if (threw == 2)
                 return fail("wrong-exception", "%s threw something that is not out_of_fixed_memory", what);
-            if (!threw && !fits)
+            if (g_boom_fired != (threw == 3))
+                return fail("exception-lost", "%s: an element constructor threw, but %s", what,
+                            threw == 1 ? "out_of_fixed_memory came out" : "no exception came out");
+            if (threw == 3)
+                ++g_stats.ctor_throws;
+            if (threw != 3 && !threw && !fits)
                 return fail("no-throw-on-overflow",
                             "%s: members requesting %s do not fit into %zu bytes of joint memory at address %% 16 == %zu, but no "
                             "out_of_fixed_memory was thrown",
                             what, req_text(r, nr).c_str(), b.size - t->sizeofT, std::size_t(mem % 16));
-            if (threw && fits)
+            if (threw == 1 && fits)
                 return harness_fail("model-mismatch",
                                     "%s threw out_of_fixed_memory although members requesting %s fit into %zu bytes at address %% 16 == %zu "
                                     "according to the reference model",
@@ -1073,9 +1159,11 @@ namespace
                 std::size_t raw = 0;
                 for (int k = 0; k != nr; ++k)
                     raw += r[k].size;
-                if (raw <= b.size - t->sizeofT)
+                if (threw == 1 && raw <= b.size - t->sizeofT)
                     ++g_stats.refused_with_padding;
-                if (kind == K_CLONE)
+                if (threw == 3)
+                    ;
+                else if (kind == K_CLONE)
                 {
                     ++g_stats.clones_refused;
                     const mobj& so = objs[src];
@@ -1119,10 +1207,13 @@ namespace
 
         int  pre_state_before;
         bool last_threw;
+        int  step;                   // index of the running operation in the sequence
+        bool boom_fired_in_armed_op; // did the armed construction number exist
 
         // returns false when the operation was skipped (precondition not met)
-        bool apply(int op)
+        bool apply(int op, int step_index)
         {
+            step             = step_index;
             skipped_last     = false;
             last_threw       = false;
             pre_state_before = pre_state();
@@ -1184,7 +1275,8 @@ namespace
                 note_class(c, op, pre_state_before, 2);
             }
             if (verbose)
-                std::printf("  %-60s -> %s%s\n", op_name(op).c_str(), last_threw ? "threw out_of_fixed_memory; " : "",
+                std::printf("  %-60s -> %s%s\n", op_name(op).c_str(),
+                            !last_threw ? "" : boom_fired_in_armed_op && c.throw_op == step ? "element constructor threw; " : "threw out_of_fixed_memory; ",
                             g_fail.set ? g_fail.tag : describe().c_str());
             check_state(op);
             return true;
@@ -1257,7 +1349,7 @@ namespace
         VERIF_GUARDED(out, {
             g_run.begin(&g_types[c.type], c, verbose);
             for (int k = 0; k != n && !g_fail.set; ++k)
-                if (!g_run.apply(ops[k]))
+                if (!g_run.apply(ops[k], k))
                 {
                     skipped = true;
                     break;
@@ -1295,6 +1387,8 @@ namespace
             .num("n2", c.n2)
             .num("add", (long long)c.add)
             .raw("ops", a.done())
+            .num("throw_op", c.throw_op)
+            .num("throw_at", c.throw_at)
             .raw("text", names.done())
             .done();
     }
@@ -1471,6 +1565,701 @@ namespace
         }
     }
 
+#ifdef VERIF_JOINT_EXT
+    //=== (F) element constructors that throw: every joint_array / vector construction form, every throwing position ===//
+    struct throw_totals
+    {
+        u64 runs = 0, fired = 0, cases = 0;
+    };
+    throw_totals g_ttot;
+
+    void enumerate_throw_type(std::size_t ti)
+    {
+        const type_ops& t = g_types[ti];
+        ++g_tot.types;
+        struct tseq
+        {
+            int ops[3];
+            int n, throw_op;
+        };
+        const tseq seqs[] = {
+            {{code(K_CREATE, 0, 0), -1, -1}, 1, 0},                                     // constructor of T from a spec
+            {{code(K_CREATE, 0, 0), code(K_CLONE, 1, 1), -1}, 2, 1},                    // copy with allocator, other upstream
+            {{code(K_CREATE, 0, 0), code(K_CLONE, 1, 0), -1}, 2, 1},                    // copy with allocator, same upstream
+            {{code(K_CREATE, 0, 1), code(K_MOVEOBJ, 1, 0), -1}, 2, 1},                  // move with allocator
+            {{code(K_CREATE, 0, 0), code(K_CLONE, 1, 0), code(K_CLONE, 1, 0)}, 3, 2},   // target slot already owns a clone
+            {{code(K_CREATE, 1, 1), code(K_CREATE, 1, 0), -1}, 2, 1},                   // target slot already owns an object
+        };
+        for (unsigned n1 = 0; n1 != 4; ++n1)
+            for (unsigned n2 = 0; n2 != 4; ++n2)
+            {
+                if (t.layout == 3 && n1 != 2)
+                    continue; // the initializer_list form has a fixed length
+                std::size_t n0 = need_at(t, 0, n1, n2), n8 = need_at(t, 8, n1, n2);
+                std::size_t exact = n0 > n8 ? n0 : n8;
+                for (std::size_t add : {exact, exact + 16})
+                    for (auto& sq : seqs)
+                    {
+                        ++g_ttot.cases;
+                        ++g_tot.objects;
+                        for (long k = 1; k <= 80; ++k)
+                        {
+                            the_case c{ti, n1, n2, add, int(k < 40 ? k : 40) + 8};
+                            c.throw_op = sq.throw_op;
+                            c.throw_at = k;
+                            bool skipped;
+                            one(c, sq.ops, sq.n, &skipped);
+                            ++g_ttot.runs;
+                            bool fired = g_run.boom_fired_in_armed_op;
+                            g_ttot.fired += fired;
+                            if (g_tot.samples.size() < 3 && fired && k == 2 && n1 == 2 && n2 == 1)
+                                g_tot.samples.push_back(case_json(c, sq.ops, sq.n));
+                            if (!fired)
+                                break; // k is past the last construction: this run was the control without a throw
+                        }
+                    }
+            }
+    }
+
+    //=== (E) histories on the joint memory of ONE object: growing vectors, raw nodes in every release order, arrays ===//
+    template <class Ea, class Eb>
+    struct JG : fm::joint_type<JG<Ea, Eb>>
+    {
+        jvec<Ea> v0;
+        jvec<Eb> v1;
+        JG(fm::joint j) : fm::joint_type<JG<Ea, Eb>>(j), v0(mkalloc<Ea>(*this)), v1(mkalloc<Eb>(*this)) {}
+    };
+    using garr = fm::joint_array<elem<1, 1>>;
+
+    struct grow_ops
+    {
+        std::size_t s[2], a[2], sizeofT, alignofT;
+        void (*create)(void*, upstream&, std::size_t);
+        void (*destroy)(void*);
+        void (*push)(void*, int, u8);
+        void (*shrink)(void*, int);
+        void (*vlook)(void*, int, const u8**, std::size_t*, std::size_t*);
+        void* (*alloc)(void*, std::size_t, std::size_t);
+        void (*dealloc)(void*, void*, std::size_t, std::size_t);
+        void (*mkarray)(void*, void*);
+    };
+    template <class Ea, class Eb>
+    struct gimpl
+    {
+        using T  = JG<Ea, Eb>;
+        using JP = fm::joint_ptr<T, upstream>;
+        static JP& P(void* s)
+        {
+            return *static_cast<JP*>(s);
+        }
+        static void create(void* s, upstream& u, std::size_t add)
+        {
+            ::new (s) JP(fm::allocate_joint<T>(u, fm::joint_size(add)));
+        }
+        static void destroy(void* s)
+        {
+            P(s).~JP();
+        }
+        static void push(void* s, int v, u8 c)
+        {
+            if (v == 0)
+                P(s)->v0.emplace_back(c);
+            else
+                P(s)->v1.emplace_back(c);
+        }
+        static void shrink(void* s, int v)
+        {
+            if (v == 0)
+                P(s)->v0.shrink_to_fit();
+            else
+                P(s)->v1.shrink_to_fit();
+        }
+        static void vlook(void* s, int v, const u8** d, std::size_t* n, std::size_t* c)
+        {
+            if (v == 0)
+                *d = reinterpret_cast<const u8*>(P(s)->v0.data()), *n = P(s)->v0.size(), *c = P(s)->v0.capacity();
+            else
+                *d = reinterpret_cast<const u8*>(P(s)->v1.data()), *n = P(s)->v1.size(), *c = P(s)->v1.capacity();
+        }
+        static void* alloc(void* s, std::size_t size, std::size_t al)
+        {
+            fm::joint_allocator ja(*P(s));
+            return ja.allocate_node(size, al);
+        }
+        static void dealloc(void* s, void* p, std::size_t size, std::size_t al)
+        {
+            fm::joint_allocator ja(*P(s));
+            ja.deallocate_node(p, size, al);
+        }
+        static void mkarray(void* s, void* st)
+        {
+            ::new (st) garr(3, *P(s));
+        }
+        static grow_ops make()
+        {
+            return grow_ops{{Ea::size_v, Eb::size_v}, {Ea::align_v, Eb::align_v}, sizeof(T), alignof(T), &create, &destroy, &push,
+                            &shrink, &vlook, &alloc, &dealloc, &mkarray};
+        }
+    };
+    const grow_ops g_gtypes[] = {gimpl<elem<1, 1>, elem<2, 2>>::make(), gimpl<elem<2, 1>, elem<4, 4>>::make(),
+                                 gimpl<elem<4, 2>, elem<1, 1>>::make()};
+    constexpr int  NGTYPES   = 3;
+    std::string    gtype_name(int g)
+    {
+        return fmt("G/s%zua%zu+s%zua%zu", g_gtypes[g].s[0], g_gtypes[g].a[0], g_gtypes[g].s[1], g_gtypes[g].a[1]);
+    }
+
+    constexpr int         GOPS = 15, NRAWSZ = 7, MAXRAW = 3, MAXARR = 2, MAXVCAP = 16;
+    const std::size_t     g_rawsz[NRAWSZ][2] = {{1, 1}, {3, 1}, {4, 4}, {8, 8}, {15, 1}, {16, 16}, {24, 8}};
+    std::string           gop_name(int op)
+    {
+        if (op < 2)
+            return fmt("push_back on v%d until it reallocates", op);
+        if (op < 4)
+            return fmt("v%d.shrink_to_fit()", op - 2);
+        if (op < 4 + NRAWSZ)
+            return fmt("joint_allocator::allocate_node(%zu, %zu)", g_rawsz[op - 4][0], g_rawsz[op - 4][1]);
+        if (op < 4 + NRAWSZ + MAXRAW)
+            return fmt("joint_allocator::deallocate_node(oldest live raw node #%d)", op - 4 - NRAWSZ);
+        return "joint_array<1 byte>(3, *p)";
+    }
+
+    struct grow_case
+    {
+        int         gtype, up;
+        std::size_t add;
+    };
+
+    struct grow_stats
+    {
+        u64 sequences = 0, skipped = 0, ops = 0, reallocations = 0, growth_refused = 0, shrinks = 0, raw_allocs = 0,
+            raw_refused = 0, raw_releases_last = 0, raw_releases_not_last = 0, arrays = 0, arrays_refused = 0,
+            vector_release_not_last = 0, succeeded_beyond_model = 0, violations_total = 0;
+    };
+    grow_stats g_gs;
+
+    std::vector<u8> g_gseen;
+    u64             g_gdistinct = 0;
+
+    struct grow_runner
+    {
+        const grow_ops* t;
+        grow_case       c;
+        alignas(16) u8 slot[SLOT_BYTES];
+        alignas(16) u8 arrst[MAXARR][sizeof(garr)];
+        int  narr;
+        bool created;
+        struct raw
+        {
+            u8*         p;
+            std::size_t size, align;
+            u8          code;
+        } raws[MAXRAW];
+        int nraw, rawserial;
+        // reference model: aligned bump, only the last allocation is reclaimed
+        std::size_t mtop;
+        struct mvec
+        {
+            long        off;
+            std::size_t cap, size;
+        } mv[2];
+        bool        model_valid;
+        const u8*   mem;
+        std::size_t cap;
+        bool        verbose, last_threw;
+
+        static u8 vcode(int v, std::size_t i)
+        {
+            return u8(0x31 + v * 0x40 + i * 7);
+        }
+        long m_alloc(std::size_t size, std::size_t al)
+        {
+            std::uintptr_t top = reinterpret_cast<std::uintptr_t>(mem) + mtop, end = reinterpret_cast<std::uintptr_t>(mem) + cap;
+            std::uintptr_t a   = (top + al - 1) / al * al;
+            if (a > end || size > end - a)
+                return -1;
+            mtop = std::size_t(a + size - reinterpret_cast<std::uintptr_t>(mem));
+            return long(a - reinterpret_cast<std::uintptr_t>(mem));
+        }
+        bool m_dealloc(long off, std::size_t size)
+        {
+            if (std::size_t(off) + size == mtop)
+            {
+                mtop = std::size_t(off);
+                return true;
+            }
+            return false;
+        }
+
+        void begin(const grow_ops* tt, const grow_case& cc, bool verb)
+        {
+            t = tt, c = cc, verbose = verb;
+            for (int u = 0; u != 2; ++u)
+            {
+                std::size_t used = g_up[u].top + 64 < ARENA ? g_up[u].top + 64 : ARENA;
+                std::memset(g_livemap[u], 0, used);
+                g_up[u].reset(u, u == 0 ? 0 : 8);
+            }
+            g_live_in_arena = g_live_outside = 0;
+            g_fail.set                       = false;
+            g_throw_at                       = 0;
+            g_sizeofT                        = t->sizeofT;
+            narr = nraw = rawserial = 0;
+            mtop                    = 0;
+            mv[0] = mv[1] = mvec{-1, 0, 0};
+            model_valid   = true;
+            created       = false;
+            t->create(slot, g_up[c.up], c.add);
+            created        = true;
+            const block& b = g_up[c.up].blk[0];
+            mem            = b.addr + t->sizeofT;
+            cap            = b.size - t->sizeofT;
+            if (g_up[c.up].n_alloc != 1 || b.size != t->sizeofT + c.add || b.align != t->alignofT)
+                fail("allocation-size", "allocate_joint asked the upstream for %zu bytes alignment %zu, expected %zu+%zu and %zu", b.size,
+                     b.align, t->sizeofT, c.add, t->alignofT);
+        }
+
+        int pre_class() const
+        {
+            auto capc = [](std::size_t cp) { return cp == 0 ? 0 : cp == 1 ? 1 : cp == 2 ? 2 : cp <= 4 ? 3 : cp <= 8 ? 4 : 5; };
+            return ((nraw * 6 + capc(mv[0].cap)) * 6 + capc(mv[1].cap)) * 3 + narr;
+        }
+        void note(int op, int pre, int outcome)
+        {
+            std::size_t cidx = std::size_t(c.gtype * 2 + c.up);
+            std::size_t idx  = ((cidx * GOPS + std::size_t(op)) * 432 + std::size_t(pre)) * 3 + std::size_t(outcome);
+            u8          bit  = u8(1u << (idx & 7));
+            if (!(g_gseen[idx >> 3] & bit))
+            {
+                g_gseen[idx >> 3] |= bit;
+                ++g_gdistinct;
+            }
+        }
+
+        // physical oracle: every live piece inside the joint memory, aligned, pairwise disjoint, contents intact
+        void check(int op)
+        {
+            if (g_fail.set)
+                return;
+            struct piece
+            {
+                const u8*   p;
+                std::size_t n, al;
+                const char* what;
+                int         idx;
+            } pc[MAXRAW + 2 + MAXARR];
+            int         np    = 0;
+            std::size_t elems = 0;
+            const u8*   end   = mem + cap;
+            for (int k = 0; k != nraw; ++k)
+                pc[np++] = piece{raws[k].p, raws[k].size, raws[k].align, "raw node", k};
+            for (int v = 0; v != 2; ++v)
+            {
+                const u8*   d;
+                std::size_t n, cp;
+                t->vlook(slot, v, &d, &n, &cp);
+                elems += n;
+                if (cp && !d)
+                    return fail("piece-null", "after %s: v%d has capacity %zu but a null buffer", gop_name(op).c_str(), v, cp);
+                if (cp)
+                    pc[np++] = piece{d, cp * t->s[v], t->a[v], "buffer of vector", v};
+                if (model_valid && (cp != mv[v].cap || n != mv[v].size))
+                    return harness_fail("model-mismatch", "after %s: v%d has size %zu capacity %zu, the reference model says %zu / %zu",
+                                        gop_name(op).c_str(), v, n, cp, mv[v].size, mv[v].cap);
+                for (std::size_t i = 0; i != n; ++i)
+                    for (std::size_t j = 0; j != t->s[v]; ++j)
+                        if (d[i * t->s[v] + j] != pat(vcode(v, i), j))
+                            return fail("content-corrupted", "after %s: element %zu of v%d (joint memory offset %ld) byte %zu is 0x%02x, expected 0x%02x",
+                                        gop_name(op).c_str(), i, v, long(d - mem), j, d[i * t->s[v] + j], pat(vcode(v, i), j));
+            }
+            for (int k = 0; k != narr; ++k)
+            {
+                auto* ar = reinterpret_cast<garr*>(arrst[k]);
+                pc[np++] = piece{reinterpret_cast<const u8*>(ar->data()), ar->size(), 1, "joint_array", k};
+                elems += ar->size();
+                if (ar->size() != 3)
+                    return fail("content-corrupted", "after %s: joint_array #%d reports %zu elements", gop_name(op).c_str(), k, ar->size());
+                for (std::size_t i = 0; i != 3; ++i)
+                    if (reinterpret_cast<const u8*>(ar->data())[i] != pat(DEFCODE, 0))
+                        return fail("content-corrupted", "after %s: element %zu of joint_array #%d was overwritten", gop_name(op).c_str(), i, k);
+            }
+            for (int k = 0; k != np; ++k)
+            {
+                if (pc[k].p < mem || pc[k].p > end || std::size_t(end - pc[k].p) < pc[k].n)
+                    return fail("piece-outside-block", "after %s: %s %d is [%ld,%ld) but the joint memory is [0,%zu)", gop_name(op).c_str(),
+                                pc[k].what, pc[k].idx, long(pc[k].p - mem), long(pc[k].p - mem) + long(pc[k].n), cap);
+                if (reinterpret_cast<std::uintptr_t>(pc[k].p) % pc[k].al != 0)
+                    return fail("piece-misaligned", "after %s: %s %d with alignment %zu is at address %% %zu == %zu", gop_name(op).c_str(),
+                                pc[k].what, pc[k].idx, pc[k].al, pc[k].al, std::size_t(reinterpret_cast<std::uintptr_t>(pc[k].p) % pc[k].al));
+                for (int l = 0; l != k; ++l)
+                    if (pc[k].n && pc[l].n && pc[k].p < pc[l].p + pc[l].n && pc[l].p < pc[k].p + pc[k].n)
+                        return fail("pieces-overlap", "after %s: %s %d [%ld,%ld) overlaps live %s %d [%ld,%ld) (joint memory offsets)",
+                                    gop_name(op).c_str(), pc[k].what, pc[k].idx, long(pc[k].p - mem), long(pc[k].p - mem) + long(pc[k].n),
+                                    pc[l].what, pc[l].idx, long(pc[l].p - mem), long(pc[l].p - mem) + long(pc[l].n));
+            }
+            for (int k = 0; k != nraw; ++k)
+                for (std::size_t j = 0; j != raws[k].size; ++j)
+                    if (raws[k].p[j] != pat(raws[k].code, j))
+                        return fail("content-corrupted", "after %s: byte %zu of live raw node %d [%ld,+%zu) is 0x%02x, expected 0x%02x",
+                                    gop_name(op).c_str(), j, k, long(raws[k].p - mem), raws[k].size, raws[k].p[j], pat(raws[k].code, j));
+            if (g_live_in_arena != long(elems) || g_live_outside != 0)
+                return fail("element-balance", "after %s: %ld elements alive in joint memory (+%ld outside), the containers hold %zu",
+                            gop_name(op).c_str(), g_live_in_arena, g_live_outside, elems);
+            const upstream& u = g_up[c.up];
+            long            w;
+            if (u.n_alloc != 1 || u.n_dealloc != 0 || g_up[1 - c.up].n_alloc != 0)
+                return fail("upstream-allocation-count", "after %s: the upstream saw %ld allocations and %ld releases, expected 1 and 0",
+                            gop_name(op).c_str(), u.n_alloc, u.n_dealloc);
+            if (!u.guards_ok(u.blk[0], &w))
+                return fail("guard-damaged", "after %s: byte at offset %ld of the block (size %zu) was overwritten", gop_name(op).c_str(), w,
+                            u.blk[0].size);
+        }
+
+        void outcome_vs_model(int op, int threw, bool fits, const char* what)
+        {
+            if (threw == 2)
+                return fail("wrong-exception", "%s threw something that is not out_of_fixed_memory", what);
+            if (!model_valid)
+                return;
+            if (threw && fits)
+                return harness_fail("model-mismatch", "%s threw out_of_fixed_memory although it fits the reference model (top %zu of %zu)", what,
+                                    mtop, cap);
+            if (!threw && !fits)
+            {
+                // not a verdict by itself: the physical checks decide whether the piece really had room
+                ++g_gs.succeeded_beyond_model;
+                model_valid = false;
+            }
+            (void)op;
+        }
+
+        bool apply(int op)
+        {
+            ++g_gs.ops;
+            last_threw = false;
+            int pre    = pre_class();
+            int threw  = 0;
+            if (op < 2)
+            {
+                int         v = op;
+                const u8*   d;
+                std::size_t n, cp;
+                t->vlook(slot, v, &d, &n, &cp);
+                if (cp >= MAXVCAP)
+                    return false;
+                try
+                {
+                    std::size_t guard = 0;
+                    do
+                    {
+                        t->push(slot, v, vcode(v, n));
+                        ++n;
+                    } while (n <= cp && ++guard < 64);
+                }
+                catch (const fm::out_of_fixed_memory&)
+                {
+                    threw = 1;
+                }
+                catch (...)
+                {
+                    threw = 2;
+                }
+                bool fits = true;
+                if (model_valid)
+                {
+                    std::size_t c0 = mv[v].cap, nc = c0 + (c0 > 1 ? c0 : 1);
+                    long        o  = m_alloc(nc * t->s[v], t->a[v]);
+                    fits           = o >= 0;
+                    if (fits)
+                    {
+                        if (c0 && !m_dealloc(mv[v].off, c0 * t->s[v]))
+                            ++g_gs.vector_release_not_last;
+                        mv[v] = mvec{o, nc, c0 + 1};
+                    }
+                    else
+                        mv[v].size = c0;
+                }
+                if (threw)
+                    ++g_gs.growth_refused;
+                else
+                    ++g_gs.reallocations;
+                outcome_vs_model(op, threw, fits, "push_back");
+            }
+            else if (op < 4)
+            {
+                int v = op - 2;
+                try
+                {
+                    t->shrink(slot, v);
+                }
+                catch (...)
+                {
+                    threw = 2; // libstdc++ swallows a failing reallocation in shrink_to_fit
+                }
+                if (model_valid && mv[v].size != mv[v].cap)
+                {
+                    if (mv[v].size == 0)
+                    {
+                        m_dealloc(mv[v].off, mv[v].cap * t->s[v]);
+                        mv[v] = mvec{-1, 0, 0};
+                    }
+                    else
+                    {
+                        long o = m_alloc(mv[v].size * t->s[v], t->a[v]);
+                        if (o >= 0)
+                        {
+                            if (!m_dealloc(mv[v].off, mv[v].cap * t->s[v]))
+                                ++g_gs.vector_release_not_last;
+                            mv[v].off = o, mv[v].cap = mv[v].size;
+                        }
+                    }
+                }
+                ++g_gs.shrinks;
+                if (threw)
+                    fail("wrong-exception", "shrink_to_fit threw");
+            }
+            else if (op < 4 + NRAWSZ)
+            {
+                if (nraw == MAXRAW)
+                    return false;
+                std::size_t size = g_rawsz[op - 4][0], al = g_rawsz[op - 4][1];
+                void*       p    = nullptr;
+                try
+                {
+                    p = t->alloc(slot, size, al);
+                }
+                catch (const fm::out_of_fixed_memory&)
+                {
+                    threw = 1;
+                }
+                catch (...)
+                {
+                    threw = 2;
+                }
+                bool fits = true;
+                if (model_valid)
+                    fits = m_alloc(size, al) >= 0;
+                outcome_vs_model(op, threw, fits, "joint_allocator::allocate_node");
+                if (!threw)
+                {
+                    if (!p)
+                        return fail("piece-null", "allocate_node returned a null pointer"), true;
+                    raw& r = raws[nraw++];
+                    r      = raw{static_cast<u8*>(p), size, al, u8(0x9B + 29 * ++rawserial)};
+                    // only write into it when it really lies inside the block; the check below reports it otherwise
+                    if (r.p >= mem && r.p <= mem + cap && std::size_t(mem + cap - r.p) >= size)
+                        for (std::size_t j = 0; j != size; ++j)
+                            r.p[j] = pat(r.code, j);
+                    ++g_gs.raw_allocs;
+                }
+                else
+                    ++g_gs.raw_refused;
+            }
+            else if (op < 4 + NRAWSZ + MAXRAW)
+            {
+                int k = op - 4 - NRAWSZ;
+                if (k >= nraw)
+                    return false;
+                raw r = raws[k];
+                t->dealloc(slot, r.p, r.size, r.align);
+                if (model_valid)
+                {
+                    if (m_dealloc(long(r.p - mem), r.size))
+                        ++g_gs.raw_releases_last;
+                    else
+                        ++g_gs.raw_releases_not_last;
+                }
+                for (int j = k; j + 1 < nraw; ++j)
+                    raws[j] = raws[j + 1];
+                --nraw;
+            }
+            else
+            {
+                if (narr == MAXARR)
+                    return false;
+                try
+                {
+                    t->mkarray(slot, arrst[narr]);
+                }
+                catch (const fm::out_of_fixed_memory&)
+                {
+                    threw = 1;
+                }
+                catch (...)
+                {
+                    threw = 2;
+                }
+                bool fits = true;
+                if (model_valid)
+                    fits = m_alloc(3, 1) >= 0;
+                outcome_vs_model(op, threw, fits, "joint_array(3, *p)");
+                if (!threw)
+                    ++narr, ++g_gs.arrays;
+                else
+                    ++g_gs.arrays_refused;
+            }
+            last_threw = threw == 1;
+            note(op, pre, threw ? 1 : 0);
+            check(op);
+            if (verbose)
+                std::printf("  %-62s -> %s%s\n", gop_name(op).c_str(), last_threw ? "threw out_of_fixed_memory; " : "",
+                            g_fail.set ? g_fail.tag : describe().c_str());
+            return true;
+        }
+
+        std::string describe()
+        {
+            std::string s;
+            for (int v = 0; v != 2; ++v)
+            {
+                const u8*   d;
+                std::size_t n, cp;
+                t->vlook(slot, v, &d, &n, &cp);
+                s += cp ? fmt("v%d=[%ld,+%zu) %zu/%zu ", v, long(d - mem), cp * t->s[v], n, cp) : fmt("v%d=empty ", v);
+            }
+            for (int k = 0; k != nraw; ++k)
+                s += fmt("raw%d=[%ld,+%zu) ", k, long(raws[k].p - mem), raws[k].size);
+            for (int k = 0; k != narr; ++k)
+                s += fmt("arr%d=[%ld,+3) ", k, long(reinterpret_cast<const u8*>(reinterpret_cast<garr*>(arrst[k])->data()) - mem));
+            return s + fmt("(model top %zu of %zu)", mtop, cap);
+        }
+
+        void teardown()
+        {
+            if (g_fail.set || !created)
+                return;
+            while (narr)
+                reinterpret_cast<garr*>(arrst[--narr])->~garr();
+            t->destroy(slot);
+            created = false;
+            if (g_fail.set)
+                return;
+            const upstream& u = g_up[c.up];
+            if (u.n_alloc != 1 || u.n_dealloc != 1 || u.blk[0].live)
+                return fail("block-not-released", "at the end the upstream saw %ld allocations and %ld releases", u.n_alloc, u.n_dealloc);
+            if (g_live_in_arena != 0 || g_live_outside != 0)
+                return fail("element-balance", "at the end %ld elements are still alive", g_live_in_arena + g_live_outside);
+        }
+    };
+    grow_runner g_grun;
+
+    int grow_run(const grow_case& c, const int* ops, int n, bool verbose, std::string* tag, std::string* detail)
+    {
+        int           out     = OUT_OK;
+        volatile bool skipped = false;
+        VERIF_GUARDED(out, {
+            g_grun.begin(&g_gtypes[c.gtype], c, verbose);
+            for (int k = 0; k != n && !g_fail.set; ++k)
+                if (!g_grun.apply(ops[k]))
+                {
+                    skipped = true;
+                    break;
+                }
+            g_grun.teardown();
+        });
+        if (out != OUT_OK && !g_fail.set)
+            fail(out == OUT_ABORTED ? "aborted" : out == OUT_CRASHED ? "crashed" : "hung",
+                 "the library %s during a sequence that respects every documented precondition", outcome_name(out));
+        if (g_fail.set)
+        {
+            *tag    = g_fail.tag;
+            *detail = g_fail.detail;
+            return g_fail.harness ? RES_HARNESS : RES_VIOLATION;
+        }
+        return skipped ? RES_SKIPPED : RES_OK;
+    }
+
+    std::string grow_json(const grow_case& c, const int* ops, int n)
+    {
+        jarr a, names;
+        for (int i = 0; i != n; ++i)
+            a.raw(std::to_string(ops[i])), names.str(gop_name(ops[i]));
+        return jobj()
+            .str("mode", "grow")
+            .str("type", gtype_name(c.gtype))
+            .num("up", c.up)
+            .num("add", (long long)c.add)
+            .raw("ops", a.done())
+            .raw("text", names.done())
+            .done();
+    }
+
+    bool grow_one(const grow_case& c, const int* ops, int n)
+    {
+        std::string tag, detail;
+        int         res = grow_run(c, ops, n, false, &tag, &detail);
+        ++g_gs.sequences;
+        if (res == RES_SKIPPED)
+            ++g_gs.skipped;
+        if (res == RES_VIOLATION || res == RES_HARNESS)
+        {
+            std::string tag2, detail2;
+            int         res2 = grow_run(c, ops, n, false, &tag2, &detail2);
+            if (res2 != res || tag2 != tag)
+            {
+                if (g_tot.herr.size() < 20)
+                    g_tot.herr.push_back(fmt("verdict not reproducible for %s: first [%s] then [%s]", grow_json(c, ops, n).c_str(), tag.c_str(),
+                                             res2 == RES_OK ? "ok" : tag2.c_str()));
+            }
+            else if (res == RES_HARNESS)
+            {
+                if (g_tot.herr.size() < 20)
+                    g_tot.herr.push_back(fmt("[%s] %s; case %s", tag.c_str(), detail.c_str(), grow_json(c, ops, n).c_str()));
+            }
+            else
+            {
+                ++g_gs.violations_total;
+                bool seen = false;
+                for (auto& s : g_tot.seen_tags)
+                    seen = seen || s == tag;
+                if (!seen)
+                {
+                    g_tot.seen_tags.push_back(tag);
+                    g_tot.viol.push_back(
+                        jobj().str("tag", tag).str("detail", gtype_name(c.gtype) + ": " + detail).raw("input", grow_json(c, ops, n)).done());
+                }
+            }
+        }
+        return res == RES_SKIPPED;
+    }
+
+    constexpr u64 GROW_VIOLATION_CAP = 2000;
+    void grow_dfs(const grow_case& c, int* ops, int len, int depth)
+    {
+        for (int op = 0; op != GOPS; ++op)
+        {
+            if (g_gs.violations_total >= GROW_VIOLATION_CAP)
+                return; // the check has failed anyway; the result is marked as not exhaustive
+            ops[len]     = op;
+            bool skipped = grow_one(c, ops, len + 1);
+            if (g_tot.samples.size() < 6 && len + 1 == depth && !skipped && (g_gs.sequences % 4099) == 0)
+                g_tot.samples.push_back(grow_json(c, ops, len + 1));
+            if (!skipped && len + 1 < depth)
+                grow_dfs(c, ops, len + 1, depth);
+        }
+    }
+
+    const grow_case g_gcases[] = {{0, 0, 72}, {0, 1, 40}, {1, 0, 72}, {1, 1, 40}, {2, 0, 72}, {2, 1, 40}};
+
+    void enumerate_grow(int depth, long part, long of)
+    {
+        long unit = 0;
+        for (auto& gc : g_gcases)
+            for (int first = 0; first != GOPS; ++first, ++unit)
+            {
+                if (unit % of != part)
+                    continue;
+                int ops[12];
+                ops[0]       = first;
+                bool skipped = grow_one(gc, ops, 1);
+                if (!skipped && depth > 1)
+                    grow_dfs(gc, ops, 1, depth);
+            }
+    }
+
+    int grow_replay(const char* js);
+#endif
+
     //=== tiny parser for the replay input ===//
     long json_num(const char* js, const char* key, long def)
     {
@@ -1497,8 +2286,77 @@ namespace
         return e ? std::string(p + 1, e) : "";
     }
 
+    int parse_ops(const char* js, int* ops, int max, int limit)
+    {
+        int         n = 0;
+        const char* p = std::strstr(js, "\"ops\"");
+        if (p && (p = std::strchr(p, '[')))
+        {
+            ++p;
+            while (*p && *p != ']' && n < max)
+            {
+                char* e;
+                long  v = std::strtol(p, &e, 10);
+                if (e == p)
+                    break;
+                if (v < 0 || v >= limit)
+                {
+                    std::printf("bad operation code %ld\n", v);
+                    return -1;
+                }
+                ops[n++] = int(v);
+                p        = e;
+                while (*p == ',' || *p == ' ')
+                    ++p;
+            }
+        }
+        return n;
+    }
+
+#ifdef VERIF_JOINT_EXT
+    int grow_replay(const char* js)
+    {
+        std::string tn = json_str(js, "type");
+        int         g  = -1;
+        for (int k = 0; k != NGTYPES; ++k)
+            if (gtype_name(k) == tn)
+                g = k;
+        if (g < 0)
+        {
+            std::printf("unknown type '%s'\n", tn.c_str());
+            return 2;
+        }
+        grow_case c{g, int(json_num(js, "up", 0)) ? 1 : 0, std::size_t(json_num(js, "add", 0))};
+        int       ops[64];
+        int       n = parse_ops(js, ops, 64, GOPS);
+        if (n < 0 || c.add > 1024)
+            return 2;
+        std::printf("joint object with two vector<_, joint_allocator> members (%s), sizeof(T)=%zu, additional size %zu, block from upstream %c "
+                    "(placed at %d mod 16); offsets are relative to the start of the joint memory\n",
+                    tn.c_str(), g_gtypes[g].sizeofT, c.add, 'A' + c.up, c.up ? 8 : 0);
+        std::string tag, detail;
+        int         res = grow_run(c, ops, n, true, &tag, &detail);
+        if (res == RES_VIOLATION)
+        {
+            std::printf("VIOLATION [%s] %s\n", tag.c_str(), detail.c_str());
+            return 1;
+        }
+        if (res == RES_HARNESS)
+        {
+            std::printf("HARNESS ERROR [%s] %s\n", tag.c_str(), detail.c_str());
+            return 3;
+        }
+        std::printf(res == RES_SKIPPED ? "sequence ends with an operation that is not enabled (skipped)\n" : "no violation\n");
+        return 0;
+    }
+#endif
+
     int replay(const char* js)
     {
+#ifdef VERIF_JOINT_EXT
+        if (json_str(js, "mode") == "grow")
+            return grow_replay(js);
+#endif
         std::string tn = json_str(js, "type");
         std::size_t ti = NTYPES;
         for (std::size_t k = 0; k != NTYPES; ++k)
@@ -1515,38 +2373,25 @@ namespace
             std::printf("counts too large\n");
             return 2;
         }
-        int         ops[64], n = 0;
-        const char* p = std::strstr(js, "\"ops\"");
-        if (p && (p = std::strchr(p, '[')))
-        {
-            ++p;
-            while (*p && *p != ']' && n < 64)
-            {
-                char* e;
-                long  v = std::strtol(p, &e, 10);
-                if (e == p)
-                    break;
-                if (v < 0 || v >= NOPS)
-                {
-                    std::printf("bad operation code %ld\n", v);
-                    return 2;
-                }
-                ops[n++] = int(v);
-                p        = e;
-                while (*p == ',' || *p == ' ')
-                    ++p;
-            }
-        }
+        c.throw_op = int(json_num(js, "throw_op", -1));
+        c.throw_at = json_num(js, "throw_at", 0);
+        int ops[64];
+        int n = parse_ops(js, ops, 64, NOPS);
+        if (n < 0)
+            return 2;
         const type_ops& t = g_types[ti];
         std::printf("joint type %s: layout %d (%s), member 1 elements %zu bytes align %zu, member 2 elements %zu bytes align %zu, "
                     "sizeof(T)=%zu alignof(T)=%zu\n",
                     tn.c_str(), t.layout,
                     t.layout == 0 ? "joint_array(size) + joint_array(range)" :
                     t.layout == 1 ? "joint_array(range) + vector(reserve, emplace_back)" :
-                                    "vector(n) + joint_array(size, value)",
+                    t.layout == 2 ? "vector(n) + joint_array(size, value)" :
+                                    "joint_array(initializer_list of 2) + joint_array(size)",
                     t.s1, t.a1, t.s2, t.a2, t.sizeofT, t.alignofT);
         std::printf("object: %u + %u elements, additional size %zu; upstream A places blocks at 0 (mod 16), upstream B at 8 (mod 16)\n",
                     c.n1, c.n2, c.add);
+        if (c.throw_op >= 0)
+            std::printf("element construction no. %ld during operation %d throws\n", c.throw_at, c.throw_op);
         std::string tag, detail;
         int         res = run_sequence(c, ops, n, true, &tag, &detail);
         if (res == RES_VIOLATION)
@@ -1568,7 +2413,7 @@ namespace
 
 int main(int argc, char** argv)
 {
-    std::string tier = "quick", out, rep;
+    std::string tier = "quick", out, rep, mode;
     long        part = 0, of = 1, depth = 0;
     for (int i = 1; i < argc; ++i)
     {
@@ -1586,6 +2431,8 @@ int main(int argc, char** argv)
             of = std::atol(next());
         else if (a == "--depth")
             depth = std::atol(next());
+        else if (a == "--mode")
+            mode = next();
     }
     fm::out_of_memory::set_handler(silent_oom);
     install_guards(2000);
@@ -1594,17 +2441,100 @@ int main(int argc, char** argv)
         return replay(rep.c_str());
 
     bool   quick = tier != "thorough";
+    if (of < 1)
+        of = 1;
+    double t0 = now_s();
+#ifdef VERIF_JOINT_EXT
+    // extension TU: --mode throw (element constructors that throw) | grow (histories on one object's joint memory)
+    g_gseen.assign(6 * GOPS * 432 * 3 / 8 + 8, 0);
+    if (depth > 8)
+        depth = 8;
+    int gdepth = depth > 0 ? int(depth) : (quick ? 5 : 6);
+    if (mode == "throw" || mode.empty())
+        for (std::size_t ti = 0; ti != NTYPES; ++ti)
+            if (long(ti % std::size_t(of)) == part)
+                enumerate_throw_type(ti);
+    if (mode == "grow" || mode.empty())
+        enumerate_grow(gdepth, part, of);
+    double wall = now_s() - t0;
+    {
+        jarr viol, herr, samples;
+        for (auto& v : g_tot.viol)
+            viol.raw(v);
+        for (auto& e : g_tot.herr)
+            herr.str(e);
+        for (auto& s : g_tot.samples)
+            samples.raw(s);
+        jobj extra;
+        extra.str("mode", mode.empty() ? "throw+grow" : mode)
+            .num("throw_joint_types", (long long)g_tot.types)
+            .num("throw_cases", (long long)g_ttot.cases)
+            .num("throw_runs", (long long)g_ttot.runs)
+            .num("throw_runs_where_a_constructor_threw", (long long)g_ttot.fired)
+            .num("throw_exceptions_seen_by_the_caller", (long long)g_stats.ctor_throws)
+            .num("element_constructions", (long long)g_elem_ctor)
+            .num("element_destructions", (long long)g_elem_dtor)
+            .num("grow_depth", (mode == "throw") ? 0 : gdepth)
+            .num("grow_alphabet", GOPS)
+            .num("grow_sequences", (long long)g_gs.sequences)
+            .num("grow_sequences_ending_with_disabled_op", (long long)g_gs.skipped)
+            .num("grow_operations", (long long)g_gs.ops)
+            .num("vector_reallocations", (long long)g_gs.reallocations)
+            .num("vector_growth_refused", (long long)g_gs.growth_refused)
+            .num("vector_old_buffer_released_while_not_last", (long long)g_gs.vector_release_not_last)
+            .num("shrink_to_fit_calls", (long long)g_gs.shrinks)
+            .num("raw_nodes_allocated", (long long)g_gs.raw_allocs)
+            .num("raw_nodes_refused", (long long)g_gs.raw_refused)
+            .num("raw_releases_of_last_allocation", (long long)g_gs.raw_releases_last)
+            .num("raw_releases_of_non_last_allocation", (long long)g_gs.raw_releases_not_last)
+            .num("arrays_created", (long long)g_gs.arrays)
+            .num("arrays_refused", (long long)g_gs.arrays_refused)
+            .num("succeeded_although_reference_model_full", (long long)g_gs.succeeded_beyond_model)
+            .num("violating_sequences_total", (long long)(g_tot.violations_total + g_gs.violations_total));
+        long long   evals = (long long)(g_tot.sequences - g_tot.skipped) + (long long)(g_gs.sequences - g_gs.skipped);
+        std::string js =
+            jobj()
+                .num("evaluations", evals)
+                .num("distinct_nontrivial", (long long)(g_distinct + g_gdistinct))
+                .str("rule",
+                     "throw: 12 joint types (4 layouts incl. initializer_list, throwing element types) x element counts 0..3 x {exact, "
+                     "+16} additional bytes x 6 life cycles x EVERY k: the k-th element construction (default/value/copy/move) of the armed "
+                     "operation throws, k = 1..past the last construction; grow: ALL sequences up to the stated depth of 15 operations "
+                     "(push_back until reallocation on 2 vectors, shrink_to_fit, joint_allocator::allocate_node of 7 (size,alignment), "
+                     "deallocate_node of any live raw node, joint_array) on the joint memory of one object, 3 element-type pairs x 2 "
+                     "(upstream, capacity); evaluations = sequences completely checked; distinct_nontrivial = distinct (type, class, "
+                     "operation, abstract state before it, outcome) tuples")
+                .raw("samples", samples.done())
+                .boolean("exhaustive", g_gs.violations_total < GROW_VIOLATION_CAP)
+                .num("excluded", (long long)(g_tot.skipped + g_gs.skipped))
+                .dbl("wall_s", wall)
+                .raw("violations", viol.done())
+                .raw("harness_errors", herr.done())
+                .raw("extra", extra.done())
+                .done();
+        if (out.empty())
+            std::printf("%s\n", js.c_str());
+        else
+        {
+            FILE* f = std::fopen(out.c_str(), "w");
+            if (!f)
+                return 2;
+            std::fputs(js.c_str(), f);
+            std::fputc('\n', f);
+            std::fclose(f);
+        }
+        return 0;
+    }
+#else
     if (depth > 6)
         depth = 6;
     int    depth_main = depth > 0 ? int(depth) : (quick ? 3 : 4);
     int    depth_rest = depth_main > 3 ? 3 : depth_main;
-    double t0 = now_s();
-    if (of < 1)
-        of = 1;
     for (std::size_t ti = 0; ti != NTYPES; ++ti)
         if (long(ti % std::size_t(of)) == part)
             enumerate_type(ti, quick, depth_main, depth_rest);
     double wall = now_s() - t0;
+#endif
 
     jarr viol, herr, samples;
     for (auto& v : g_tot.viol)
